@@ -224,9 +224,12 @@ def histories(draw):
     comp = {"name": "Src0", "kind": "Source", "params": M.draw_params(draw, "Source"),
             "limits": None}
     d.start(comp, "", draw(st.sampled_from(["", "VIN"])))
+    if draw(st.booleans()):
+        for op in M.mux_preamble(draw):
+            d.step(op)
     n = draw(st.integers(4, 18))
     for k in range(n):
-        op = M.draw_op(draw, d.model, k + 1)
+        op = M.draw_op(draw, d.model, k + 11)
         if d.step(op) == "abort":
             break
     return d.ops
@@ -259,6 +262,13 @@ def body_history(ops, stats):
                 raise Fail("history.reload.exception." + type(e).__name__,
                            "from_file(save(S)) raised {}: {}; history tail {}".format(
                                type(e).__name__, e, [M.op_text(o) for o in ops][-3:]))
+        doc = json.load(open(f1))
+        for n in spec["nodes"]:
+            if n["kind"] == "PMux" and doc[n["name"]]["parents"] != n["parents"]:
+                raise Fail("history.mux_input_order",
+                           "after {} the saved file lists the mux inputs {} but their priority "
+                           "order is {}".format([M.op_text(o) for o in ops][-3:],
+                                                doc[n["name"]]["parents"], n["parents"]))
         ra, rb = reports(d.sys, spec, stats, "orig"), reports(sys2, spec, stats, "reload")
         compare_reports(ra, rb, spec, "history.roundtrip")
     stats.cls("history_roundtrip")
@@ -293,5 +303,5 @@ def streams(tier, avoid):
         Stream("phases", body, strategy=_case(o2), n={"quick": 300, "thorough": 2500},
                reduce=_reduce),
         Stream("after_history", body_history, strategy=histories(),
-               n={"quick": 80, "thorough": 800}),
+               n={"quick": 150, "thorough": 1200}),
     ]
